@@ -235,9 +235,39 @@ func (f *decoFIP) List(ctx context.Context, opts metav1.ListOptions) (res *v1alp
 		}
 		var e error
 		res, e = f.FloatingIPInterface.List(ctx, opts)
+		if e == nil && (opts.Limit > 0 || opts.Continue != "") {
+			res = paginate(res, opts.Limit, opts.Continue)
+		}
 		return e
 	})
 	return
+}
+
+// paginate: what the API server does with ListOptions.Limit / Continue (the client-go fake ignores both): at most Limit
+// items in name order and a continue token when more are left; a List carrying the token returns the next chunk.
+func paginate(all *v1alpha1.FloatingIPList, limit int64, token string) *v1alpha1.FloatingIPList {
+	items := append([]v1alpha1.FloatingIP(nil), all.Items...)
+	sort.Slice(items, func(i, j int) bool { return items[i].Name < items[j].Name })
+	start := 0
+	if strings.HasPrefix(token, "verif-continue-") {
+		fmt.Sscanf(strings.TrimPrefix(token, "verif-continue-"), "%d", &start)
+	}
+	if start > len(items) {
+		start = len(items)
+	}
+	end := len(items)
+	if limit > 0 && start+int(limit) < end {
+		end = start + int(limit)
+	}
+	out := all.DeepCopy()
+	out.Items = items[start:end]
+	out.Continue = ""
+	if end < len(items) {
+		out.Continue = fmt.Sprintf("verif-continue-%d", end)
+		left := int64(len(items) - end)
+		out.RemainingItemCount = &left
+	}
+	return out
 }
 
 // ---- lagging informer: what galaxy-ipam's shared FloatingIP informer looks like to crdIpam --------------------------------
